@@ -60,11 +60,12 @@ PROPS['C10'] = dict(
 _tags1 = ['end', 'insert_simplex_and_subfaces', 'insert_simplex', 'remove_maximal_simplex', 'prune_above_dimension', 'insert_batch_vertices']
 PROPS['C01'] = dict(
   explanation='Bounded symbolic execution of the real Simplex_tree (clang IR of the headers in /repo) over *symbolic operation histories*: kind, vertex set and filtration value of each of k operations are solver variables; after every step every read interface (find, filtration, enumerations, skeleton, boundary with opposite vertices, star, cofaces of every codimension, counts per dimension, dimension, ==) is compared with an abstract-complex oracle, for six option sets. z3 decides each path; complete inside the bounds.',
-  bounds=dict(quick='n=3 labels, k=2 operations (7 kinds), values 0..2, option sets default/full_featured/fast_persistence/minimal/stable-only/linked-only; default also with labels {-7,2,40}', thorough='n=3,k=3 for every option set; n=4,k=2 default and full_featured'),
+  bounds=dict(quick='n=3 labels: histories of k=2 operations (7 kinds) from the empty tree, values 0..2, option sets default/full_featured/fast_persistence/minimal/stable-only/linked-only, default also with labels {-7,2,40}; plus ONE operation from every valid filtered complex on 3 labels with values 0..2 (solver-chosen state; default, full_featured, fast_persistence)', thorough='n=3,k=3 for every option set; n=4,k=2 default and full_featured'),
   outside=['histories longer than k', 'more than 4 vertices', 'Simplex_data payloads', 'insert_graph (covered with C04)', 'non-monotone intermediate states (documented precondition)'],
   assumptions=['every intermediate state is a filtered complex (closed under faces, monotone values)', 'remove_maximal_simplex only on a simplex without cofaces (documented precondition)', 'insert_simplex only when all faces are present'],
   units=[U('hist_opt%d_n3k2' % o, 'C01_history.cpp', ['VP_N=3', 'VP_K=2', 'VP_OPT=%d' % o], weight=4, must_reach=_tags1 + ([] if o in (2,) else ['clear']) + ([] if o == 3 else ['prune_above_filtration'])) for o in range(6)]
       + [U('hist_opt0_labels_n3k2', 'C01_history.cpp', ['VP_N=3', 'VP_K=2', 'VP_OPT=0', 'VP_LABELS=1'], weight=4, must_reach=_tags1)]
+      + [U('step_opt%d_n3' % o, 'C01_history.cpp', ['VP_N=3', 'VP_K=1', 'VP_OPT=%d' % o, 'VP_STATE', 'VP_FMAX=1'], weight=12, jobs=8, budget=900, must_reach=['end', 'insert_simplex_and_subfaces', 'remove_maximal_simplex', 'prune_above_dimension']) for o in (0, 1, 2)]
       + [U('hist_opt%d_n3k3' % o, 'C01_history.cpp', ['VP_N=3', 'VP_K=3', 'VP_OPT=%d' % o], tiers=['thorough'], weight=30, must_reach=_tags1) for o in range(6)]
       + [U('hist_opt%d_n4k2' % o, 'C01_history.cpp', ['VP_N=4', 'VP_K=2', 'VP_OPT=%d' % o], tiers=['thorough'], weight=30, must_reach=_tags1) for o in (0, 1)])
 
@@ -127,6 +128,8 @@ for ci, col in enumerate(_COLS):
 for fl in range(3):
     for idx in (1, 2):
         _u05.append(_pm('C05_matrix.cpp', 'm_%s_idx%d_rows_rm' % (_FL[fl], idx), flavour=fl, idx=idx, rows=1, removable=1, rep=1 if fl == 1 else 0, m=4, extra=['VP_RM=2'], weight=6, must=('end', 'removed')))
+for fl in range(3):
+    _u05.append(_pm('C05_matrix.cpp', 'm_%s_gapped_ids_rm' % _FL[fl], flavour=fl, idx=0 if fl != 2 else 2, removable=1, rep=0, m=4, extra=['VP_RM=2', 'VP_IDS'], weight=8, must=('end', 'removed')))
 _u05.append(_pm('C05_matrix.cpp', 'm_ru_z5_units', z2=0, flavour=1, rep=1, m=4, extra=['VP_UNITS'], weight=8))
 _u05.append(_pm('C05_matrix.cpp', 'm_chain_z5_units_rm', z2=0, flavour=2, removable=1, m=4, extra=['VP_UNITS', 'VP_RM=1'], weight=8))
 _u05.append(_pm('C05_matrix.cpp', 'm_boundary_set_rows2', col='SET', flavour=0, rows=2, m=5, weight=6))
@@ -136,8 +139,8 @@ for ci, col in enumerate(_COLS):
         _u05.append(_pm('C05_matrix.cpp', 't_%s_%s_m6' % (_FL[fl], col.lower()), col=col, z2=(ci + fl + 1) % 2, flavour=fl, rep=1 if fl == 1 else 0, removable=1 if fl != 0 else 0, m=6, nv=4, extra=['VP_RM=2'] if fl != 0 else [], tiers=['thorough'], weight=30))
 PROPS['C05'] = dict(
   explanation='Bounded symbolic execution of the real Matrix<Options> (Boundary_matrix / RU_matrix / Chain_matrix, clang IR of the headers in /repo) for a table of option sets: the filtration (which simplices, in which order; for Z_5 also a unit scaling every boundary = general cells) and the removed/re-inserted suffix are solver variables; on every path the barcode equals an independent dense reduction over the field and the exposed matrices satisfy their defining identities (R reduced with the pivots of the reduction, R/U factor the boundary matrix, pivot maps, chain columns with distinct leading cells, cycles / boundary onto partner).',
-  bounds=dict(quick='every filtered sub-complex of the triangle with m=4 cells (m=5 for one unit), all 9 column types x {boundary, RU, chain} alternating Z2/Z5, position and identifier indexing with row access and removable columns incl. remove_last of up to 2 cells and re-insertion, Z5 with arbitrary unit coefficients', thorough='m=6 cells of the tetrahedron for every column type and flavour with removals'),
-  outside=['complexes with more cells than the bound', 'characteristics other than 2 and 5', 'identifiers different from positions (covered in C06 after swaps)'],
+  bounds=dict(quick='every filtered sub-complex of the triangle with m=4 cells (m=5 for one unit), all 9 column types x {boundary, RU, chain} alternating Z2/Z5, position and identifier indexing with row access and removable columns incl. remove_last of up to 2 cells and re-insertion, Z5 with arbitrary unit coefficients, identifiers with gaps (reused after remove_last) for the three flavours', thorough='m=6 cells of the tetrahedron for every column type and flavour with removals'),
+  outside=['complexes with more cells than the bound', 'characteristics other than 2 and 5', 'the identity clauses for identifiers different from positions (the barcode clause is checked with gapped identifiers)'],
   units=_u05)
 
 # ------------------------------------------------------------------------------------------------ C06
@@ -151,6 +154,7 @@ _u06.append(_pm('C06_vine.cpp', 'v_chain_pos_rm', flavour=2, idx=1, vine=1, rows
 _u06.append(_pm('C06_vine.cpp', 'v_ru_pos_rm', flavour=1, idx=1, vine=1, removable=1, m=4, extra=['VP_K=2'], weight=8, must=('end', 'swap', 'remove_maximal_cell', 'insert')))
 _kf6 = _pm('C06_vine.cpp', 'v_ru_pos_rm_kf', flavour=1, idx=1, vine=1, removable=1, m=4, extra=['VP_K=2', 'VP_KF_RU_RM'], weight=8, must=()); _kf6['kf'] = 'C06-ru-swap-after-inner-removal'; _u06.append(_kf6)
 _u06.append(_pm('C06_vine.cpp', 'v_ru_pos_m5k3', flavour=1, idx=1, vine=1, m=5, extra=['VP_K=3'], weight=10, must=('end', 'swap')))
+_u06.append(_pm('C06_vine.cpp', 'v_ru_pos_vector_m5k3', col='VECTOR', flavour=1, idx=1, vine=1, m=5, extra=['VP_K=3'], weight=10, must=('end', 'swap')))
 _u06.append(_pm('C06_vine.cpp', 'v_chain_pos_m5k3', flavour=2, idx=1, vine=1, m=5, extra=['VP_K=3'], weight=10, must=('end', 'swap')))
 for ci, col in enumerate(_COLS):
     for fl in (1, 2):
@@ -186,9 +190,9 @@ PROPS['C08'] = dict(
 _t16 = ['end', 'insert', 'remove_simplex', 'remove_vertex', 'contraction']
 PROPS['C16'] = dict(
   explanation='Bounded symbolic execution of the real Toplex_map and Lazy_toplex_map (clang IR of the headers in /repo) driven in lock-step through symbolic histories of insertions, simplex removals (maximal and non-maximal), vertex removals and edge contractions; after every step membership of every vertex set, maximality, maximal cofaces, the number of stored simplices and of vertices are compared with an abstract-complex oracle, and the two variants with each other.',
-  bounds=dict(quick='n=3 labels, k=3 operations, three label sets ({0,1,2}, {1,5,9}, {7,2^31,3}); n=4, k=2', thorough='n=4, k=3; n=3, k=4'),
+  bounds=dict(quick='n=3 labels, k=3 operations, four label sets ({0,1,2}, {1,5,9}, {7,2^31,3}, {1,SIZE_MAX,3}); n=4, k=2', thorough='n=4, k=3; n=3, k=4'),
   outside=['histories longer than k', 'more than 4 vertices', 'the lazy map is compared with the eager one after a contraction only when both keep the same vertex (the choice is an implementation detail)'],
-  units=[U('toplex_n3k3_l%d' % l, 'C16_toplex.cpp', ['VP_N=3', 'VP_K=3', 'VP_LABELS=%d' % l], cflags=['-U__SSE2__'], weight=5, must_reach=_t16) for l in range(3)]
+  units=[U('toplex_n3k3_l%d' % l, 'C16_toplex.cpp', ['VP_N=3', 'VP_K=3', 'VP_LABELS=%d' % l], cflags=['-U__SSE2__'], weight=5, must_reach=_t16) for l in range(4)]
       + [U('toplex_n4k2', 'C16_toplex.cpp', ['VP_N=4', 'VP_K=2'], cflags=['-U__SSE2__'], weight=8, must_reach=_t16)]
       + [U('toplex_n4k3', 'C16_toplex.cpp', ['VP_N=4', 'VP_K=3'], cflags=['-U__SSE2__'], tiers=['thorough'], weight=30, must_reach=_t16), U('toplex_n3k4', 'C16_toplex.cpp', ['VP_N=3', 'VP_K=4', 'VP_LABELS=1'], cflags=['-U__SSE2__'], tiers=['thorough'], weight=30, must_reach=_t16)])
 
@@ -213,10 +217,11 @@ PROPS['C20'] = dict(
 # ------------------------------------------------------------------------------------------------ C04
 PROPS['C04'] = dict(
   explanation='Bounded symbolic execution of the real Simplex_tree::expansion, expansion_with_blockers, insert_edge_as_flag (+ make_filtration_non_decreasing) and Rips_complex::create_complex (clang IR of the headers in /repo): presence and weight of every possible edge, vertex values, the maximal dimension, the blocked set and the edge insertion order are solver variables; every route is compared with a clique-enumeration oracle (membership of all 2^n vertex sets, values, number of reported simplices) and the routes with each other (operator==).',
-  bounds=dict(quick='n=4 vertices, each of the 6 edges absent or weighted 1..2, vertex values 0..1, d in 1..3, non-contiguous labels, blocked sets over the 5 vertex sets with >=3 vertices, 7 insertion orders; Rips from a distance matrix with thresholds 0..2', thorough='n=5 (10 edges, weights 0..1 with 4 more symbolic), double filtration values'),
+  bounds=dict(quick='n=4 vertices, each of the 6 edges absent or weighted 1..2, vertex values 0..1, d in 1..3, non-contiguous labels, blocked sets over the 5 vertex sets with >=3 vertices, every set of blocked triangles of the complete graph on 5 vertices, 7 insertion orders; Rips from a distance matrix with thresholds 0..2', thorough='n=5 (10 edges, weights 0..1 with 4 more symbolic), double filtration values'),
   outside=['graphs with more than 5 vertices', 'Rips from point coordinates (Euclidean distance of symbolic coordinates)', 'stateful blocker oracles'],
   units=[U('flag_n4', 'C04_flag.cpp', ['VP_N=4', 'VP_WMAX=2'], weight=8, must_reach=['end', 'edges-in-order', 'edges-rotated']), U('flag_n4_labels_block', 'C04_flag.cpp', ['VP_N=4', 'VP_WMAX=1', 'VP_LABELS=1', 'VP_BLOCK', 'VP_NOEDGEFLAG'], weight=8, must_reach=['end', 'blockers']),
          U('flag_n4_rips', 'C04_flag.cpp', ['VP_N=4', 'VP_WMAX=2', 'VP_RIPS', 'VP_NOEDGEFLAG'], weight=8, must_reach=['end', 'rips']), U('flag_n3_double', 'C04_flag.cpp', ['VP_N=3', 'VP_WMAX=2', 'VP_FT=double', 'VP_BLOCK'], weight=4, must_reach=['end']),
+         U('flag_k5_blocked_triangles', 'C04_flag.cpp', ['VP_N=5', 'VP_WMAX=1', 'VP_COMPLETE', 'VP_BLOCK', 'VP_BLOCKMAX=3', 'VP_NOEDGEFLAG', 'VP_LABELS=1'], weight=8, must_reach=['end', 'blockers']),
          U('flag_n5', 'C04_flag.cpp', ['VP_N=5', 'VP_WMAX=1'], tiers=['thorough'], weight=40, must_reach=['end']), U('flag_n4_double_block', 'C04_flag.cpp', ['VP_N=4', 'VP_WMAX=2', 'VP_FT=double', 'VP_BLOCK'], tiers=['thorough'], weight=40, must_reach=['end'])])
 
 # ------------------------------------------------------------------------------------------------ C03
@@ -255,39 +260,45 @@ PROPS['C02'] = dict(
 
 # ------------------------------------------------------------------------------------------------ C07
 PROPS['C07'] = dict(
-  explanation='Bounded symbolic execution of the real Zigzag_persistence and Filtered_zigzag_persistence (chain matrix with vine swaps, surjective/injective diamonds; clang IR of the headers in /repo) over symbolic arrow sequences (insertion of a cell whose boundary is present, removal of a cell without coface, identity). Per arrow an in-harness oracle (dense GF(2) Betti numbers) fixes whether a class is born or dies, its dimension and index; each streamed finite interval must close an open birth of that dimension at that arrow, the open intervals must be exactly the unclosed births, insertion-only sequences must reproduce the pairing of an independent boundary-matrix reduction, and the filtered front-end must report the same intervals translated to monotone symbolic filtration values minus the zero-length ones.',
-  bounds=dict(quick='all admissible sequences of k=6 arrows over the faces of the triangle; k=5 with the filtered front-end; k=5 on the tetrahedron', thorough='k=8 (triangle), k=7 (tetrahedron)'),
-  outside=['which open birth of the right dimension a death is paired with, for sequences containing removals (no independent zigzag decomposition oracle in the harness: the clause is decided for insertion-only sequences and for all dimensions/indices/counts otherwise)', 'sequences longer than k', 'column types other than the default of the class'],
+  explanation='Bounded symbolic execution of the real Zigzag_persistence and Filtered_zigzag_persistence (chain matrix with vine swaps, surjective/injective diamonds; clang IR of the headers in /repo) over symbolic arrow sequences (insertion of a cell whose boundary is present, removal of a cell without coface, identity). Per arrow an in-harness oracle (dense GF(2) Betti numbers) fixes whether a class is born or dies, its dimension and index; each streamed finite interval must close an open birth of that dimension at that arrow, the open intervals must be exactly the unclosed births, insertion-only sequences must reproduce the pairing of an independent boundary-matrix reduction, the full interval decomposition (which birth is paired with which death) must equal the one computed by an independent right-filtration algorithm (Carlsson-de Silva) on explicit GF(2) homology bases, and the filtered front-end must report the same intervals translated to monotone symbolic filtration values minus the zero-length ones.',
+  bounds=dict(quick='all admissible sequences of k=6 arrows over the faces of the triangle (with the full decomposition oracle); k=5 with the filtered front-end; k=5 on the tetrahedron; graph zigzags on 4 vertices with 5 edge arrows (full oracle)', thorough='k=8 (triangle), k=7 (tetrahedron), graph zigzags on 4 vertices with 8 edge arrows (full oracle)'),
+  outside=['sequences longer than k', 'column types other than the default of the class'],
   units=[U('zz_tri_k6', 'C07_zigzag.cpp', ['VP_K=6', 'VP_NV=3'], cflags=['-U__SSE2__'], weight=10, must_reach=['end', 'insert', 'remove', 'identity', 'insert-only']),
          U('zz_tri_k5_filtered', 'C07_zigzag.cpp', ['VP_K=5', 'VP_NV=3', 'VP_FILTERED'], cflags=['-U__SSE2__'], weight=10, must_reach=['end', 'insert', 'remove']),
          U('zz_tet_k5', 'C07_zigzag.cpp', ['VP_K=5', 'VP_NV=4'], cflags=['-U__SSE2__'], weight=10, must_reach=['end', 'insert', 'remove']),
+         U('zz_tri_k6_full', 'C07_zigzag.cpp', ['VP_K=6', 'VP_NV=3', 'VP_FULLORACLE'], cflags=['-U__SSE2__'], weight=10, must_reach=['end', 'full-oracle', 'remove']),
+         U('zz_graph4_e5_full', 'C07_zigzag.cpp', ['VP_K=9', 'VP_NV=4', 'VP_FULLORACLE', 'VP_EDGES_ONLY'], cflags=['-U__SSE2__'], weight=12, must_reach=['end', 'full-oracle', 'remove']),
+         U('zz_graph4_e8_full', 'C07_zigzag.cpp', ['VP_K=12', 'VP_NV=4', 'VP_FULLORACLE', 'VP_EDGES_ONLY'], cflags=['-U__SSE2__'], tiers=['thorough'], weight=80, budget=3300, must_reach=['end', 'full-oracle']),
          U('zz_tri_k8', 'C07_zigzag.cpp', ['VP_K=8', 'VP_NV=3'], cflags=['-U__SSE2__'], tiers=['thorough'], weight=40, must_reach=['end']), U('zz_tet_k7', 'C07_zigzag.cpp', ['VP_K=7', 'VP_NV=4'], cflags=['-U__SSE2__'], tiers=['thorough'], weight=40, must_reach=['end'])])
 
 # ------------------------------------------------------------------------------------------------ C12
 PROPS['C12'] = dict(
   explanation='Bounded symbolic execution of the real flag_complex_collapse_edges (Flag_complex_edge_collapser, both neighbour-table implementations; clang IR of the headers in /repo): presence and weight of every possible edge are solver variables; on every path the output is a subset of the input edges with values not smaller, and the dense Z_2 persistence diagrams (all dimensions) of the flag filtrations of input and output, both computed by an in-harness oracle that does the clique expansion definitionally, are equal.',
-  bounds=dict(quick='every graph on 4 vertices with each edge absent or weighted 1..3 (flat-map neighbour tables) / 1..2 (dense-array tables, permuted vertex labels); every graph on 5 vertices with unit weights; weights are finite-grid doubles', thorough='5 vertices, weights 1..3, dense tables; float weights 1..4 on 4 vertices'),
+  bounds=dict(quick='every graph on 4 vertices with each edge absent or weighted 1..3 (flat-map neighbour tables) / 1..2 (dense-array tables, permuted vertex labels); every graph on 5 vertices with unit weights; weights are finite-grid doubles', thorough='5 vertices, weights 1..3, dense tables; float weights 1..4 on 4 vertices; 6 vertices: the octahedron graph with weights 1..3 (both tables) and the complete graph with weights 1..2 (dense tables)'),
   outside=['graphs with more than 5 vertices', 'TBB parallel sort (sequential build only)'],
   units=[U('collapse_n4_w3', 'C12_collapse.cpp', ['VP_N=4', 'VP_WMAX=3', 'VP_WT=double', 'VP_GRIDW'], cflags=['-U__SSE2__'], weight=10), U('collapse_n4_w2_dense_labels', 'C12_collapse.cpp', ['VP_N=4', 'VP_WMAX=2', 'VP_LABELS=1', 'VP_WT=double', 'VP_GRIDW', 'GUDHI_COLLAPSE_USE_DENSE_ARRAY'], cflags=['-U__SSE2__'], weight=8),
          U('collapse_n5_w1', 'C12_collapse.cpp', ['VP_N=5', 'VP_WMAX=1', 'VP_WT=double', 'VP_GRIDW'], cflags=['-U__SSE2__'], weight=10), U('collapse_n5_w2', 'C12_collapse.cpp', ['VP_N=5', 'VP_WMAX=2', 'VP_WT=double', 'VP_GRIDW'], cflags=['-U__SSE2__'], tiers=['thorough'], weight=60),
-         U('collapse_n5_w3_dense', 'C12_collapse.cpp', ['VP_N=5', 'VP_WMAX=3', 'VP_WT=double', 'VP_GRIDW', 'GUDHI_COLLAPSE_USE_DENSE_ARRAY'], cflags=['-U__SSE2__'], tiers=['thorough'], weight=60), U('collapse_n4_float_w4', 'C12_collapse.cpp', ['VP_N=4', 'VP_WMAX=4', 'VP_WT=float', 'VP_GRIDW'], cflags=['-U__SSE2__'], tiers=['thorough'], weight=40)])
+         U('collapse_octahedron_w3_dense', 'C12_collapse.cpp', ['VP_N=6', 'VP_WMAX=3', 'VP_WT=double', 'VP_GRIDW', 'VP_GRAPH=1', 'GUDHI_COLLAPSE_USE_DENSE_ARRAY'], cflags=['-U__SSE2__'], tiers=['thorough'], weight=60, budget=3300), U('collapse_octahedron_w3', 'C12_collapse.cpp', ['VP_N=6', 'VP_WMAX=3', 'VP_WT=double', 'VP_GRIDW', 'VP_GRAPH=1'], cflags=['-U__SSE2__'], tiers=['thorough'], weight=60, budget=3300), U('collapse_k6_w2_dense', 'C12_collapse.cpp', ['VP_N=6', 'VP_WMAX=2', 'VP_WT=double', 'VP_GRIDW', 'VP_GRAPH=2', 'GUDHI_COLLAPSE_USE_DENSE_ARRAY'], cflags=['-U__SSE2__'], tiers=['thorough'], weight=60, budget=3300), U('collapse_n5_w3_dense', 'C12_collapse.cpp', ['VP_N=5', 'VP_WMAX=3', 'VP_WT=double', 'VP_GRIDW', 'GUDHI_COLLAPSE_USE_DENSE_ARRAY'], cflags=['-U__SSE2__'], tiers=['thorough'], weight=60), U('collapse_n4_float_w4', 'C12_collapse.cpp', ['VP_N=4', 'VP_WMAX=4', 'VP_WT=float', 'VP_GRIDW'], cflags=['-U__SSE2__'], tiers=['thorough'], weight=40)])
 
 # ------------------------------------------------------------------------------------------------ C11
 _t11 = ['end', 'full', 'lower', 'upper', 'sparse']
 PROPS['C11'] = dict(
   explanation='Bounded symbolic execution of the real Ripser engine (gudhi/ripser.h: distance-matrix classes, the three simplex encodings incl. the 128-bit integer class, coboundary enumerators, apparent pairs, the hash-map based cohomology; clang IR of the headers in /repo): every dissimilarity is a finite-grid float (ties, no triangle inequality), threshold, dim_max, input form and encoding are forked by the solver, the modulus is concrete per unit; the streamed intervals (zero-length dropped) are compared as multisets per dimension with a dense signed Z_p reduction of the truncated Rips flag filtration computed in the harness.',
-  bounds=dict(quick='n=4 points, distances in {1,2}, thresholds {0.5,1,2,inf}, dim_max 0..2, forms full/lower/upper/sparse, encodings auto/bitfield-64/bitfield-128/cns-128 combined by a covering design (every pair of factors levels), modulus 2 and 3; n=3 modulus 5', thorough='full cross product at n=4; n=5 with distances in {1,2}, modulus 2 and 3'),
+  bounds=dict(quick='(+ unit bigindex: the 4 points preceded by 450 isolated vertices in the sparse form, p=3, so packed simplex indices exceed 32 bits) n=4 points, distances in {1,2}, thresholds {0.5,1,2,inf}, dim_max 0..2, forms full/lower/upper/sparse, encodings auto/bitfield-64/bitfield-128/cns-128 combined by a covering design (every pair of factors levels), modulus 2 and 3; n=3 modulus 5; sparse input with 1500 isolated padding vertices before the 4 active ones (vertex ids and packed simplex indices beyond 32 bits), modulus 3', thorough='full cross product at n=4; n=5 with distances in {1,2}, modulus 2 and 3'),
   outside=['Euclidean point-cloud input (sqrt of symbolic coordinates)', 'more than 5 points', 'the SIMD path of boost::unordered_flat_map (compiled with -U__SSE2__)', 'moduli above 5'],
+  budget=dict(quick=600, thorough=3000),
   units=[U('ripser_n4_p2', 'C11_ripser.cpp', ['VP_N=4', 'VP_P=2', 'VP_DMAX=2'], cflags=['-U__SSE2__'], weight=10, must_reach=_t11), U('ripser_n4_p3', 'C11_ripser.cpp', ['VP_N=4', 'VP_P=3', 'VP_DMAX=2'], cflags=['-U__SSE2__'], weight=10, must_reach=_t11),
+         U('ripser_n4_p3_bigindex', 'C11_ripser.cpp', ['VP_N=4', 'VP_P=3', 'VP_DMAX=2', 'VP_PAD=450'], cflags=['-U__SSE2__'], weight=10, must_reach=['end', 'sparse']),
          U('ripser_n3_p5', 'C11_ripser.cpp', ['VP_N=3', 'VP_P=5', 'VP_DMAX=3'], cflags=['-U__SSE2__'], weight=5, must_reach=_t11),
          U('ripser_n4_p2_cross', 'C11_ripser.cpp', ['VP_N=4', 'VP_P=2', 'VP_DMAX=3', 'VP_CROSS'], cflags=['-U__SSE2__'], tiers=['thorough'], weight=60, must_reach=_t11), U('ripser_n5_p2', 'C11_ripser.cpp', ['VP_N=5', 'VP_P=2', 'VP_DMAX=2'], cflags=['-U__SSE2__'], tiers=['thorough'], weight=60, must_reach=_t11), U('ripser_n5_p3', 'C11_ripser.cpp', ['VP_N=5', 'VP_P=3', 'VP_DMAX=2'], cflags=['-U__SSE2__'], tiers=['thorough'], weight=60, must_reach=_t11)])
 
 # ------------------------------------------------------------------------------------------------ C18
 PROPS['C18'] = dict(
   explanation='Bounded symbolic execution of the real Persistence_landscape (construction from a diagram, evaluation, +, -, *, abs, average, integrals, L^p and sup distances, inner product) and Persistence_landscape_on_grid (clang IR of the headers in /repo): the interval endpoints are finite-grid doubles forked to concrete dyadic values by the solver, so the library arithmetic is exact host IEEE arithmetic and every quantity is compared EXACTLY with the definition (k-th largest tent value at every quarter point, Simpson integrals that are exact for piecewise linear/quadratic functions with half-integer breakpoints).',
-  bounds=dict(quick='diagrams of m=2 intervals with births in {0..3} and lengths in {1..3} (repeated, nested, touching), all levels, all quarter points of [-0.5,7.5]; pairs of such diagrams for the algebra/distances; gridded form on [0,7] with 14 cells', thorough='m=3 intervals'),
+  bounds=dict(quick='diagrams of m=2 intervals with births in {0..3} and lengths in {1..3} (repeated, nested, touching), all levels, all quarter points of [-0.5,7.5]; pairs of such diagrams for the algebra/distances; gridded form on [0,7] with 14 cells; m=4 intervals with births in {0,1} and lengths in {2..5} (tied births, nested)', thorough='m=3 intervals'),
   outside=['non-dyadic data (comparison would need error bounds)', 'exponents p other than 1, 2, infinity', 'file constructors (iostream)'],
   units=[U('land_pointwise_m2', 'C18_landscape.cpp', ['VP_M=2', 'VP_MODE=0'], weight=5, must_reach=['end', 'pointwise']), U('land_algebra_m2', 'C18_landscape.cpp', ['VP_M=2', 'VP_MODE=1'], weight=10, must_reach=['end', 'algebra']),
+         U('land_pointwise_m4_ties', 'C18_landscape.cpp', ['VP_M=4', 'VP_MODE=0', 'VP_NB=2', 'VP_NL=4', 'VP_L0=2'], weight=8, must_reach=['end', 'pointwise']),
          U('land_pointwise_m3', 'C18_landscape.cpp', ['VP_M=3', 'VP_MODE=0'], tiers=['thorough'], weight=30, must_reach=['end']), U('land_algebra_m3', 'C18_landscape.cpp', ['VP_M=3', 'VP_MODE=1'], tiers=['thorough'], weight=60, must_reach=['end'])])
 
 # ------------------------------------------------------------------------------------------------ C19
